@@ -96,16 +96,17 @@ let kclamp k = ((k mod 4) + 4) mod 4
 let rec opt_of_sx (x : sx) : opt =
   let name h = match ostr_of_hex h with Some s -> s | None -> raise Bad in
   let cbs kind (l : sx list) =
-    let p = ref None and v = ref None and v2 = ref None and pr = ref None in
+    let p = ref None and v = ref None and v2 = ref None and pr = ref None and noparse = ref false in
     List.iter (function
         | A t -> (match String.index_opt t ':' with
             | Some j -> let k = Some (n_of_int (kclamp (int_of_string (String.sub t (j + 1) (String.length t - j - 1))))) in
               (match String.sub t 0 j with
-               | "parse" -> p := k | "valid" -> v := k | "valid2" -> v2 := k | "print" -> pr := k | _ -> raise Bad)
+               | "parse" -> p := k | "valid" -> v := k | "valid2" -> v2 := k | "print" -> pr := k
+               | "noparse" -> noparse := true | _ -> raise Bad)
             | None -> raise Bad)
         | L _ -> raise Bad) l;
     let isptr = (kind = KPtr) in
-    { cb_parse = (if isptr && !p = None then Some N0 else !p); cb_valid = !v; cb_valid2 = !v2; cb_print = !pr;
+    { cb_parse = (if !noparse then None else if isptr && !p = None then Some N0 else !p); cb_valid = !v; cb_valid2 = !v2; cb_print = !pr;
       cb_free = isptr; cb_func = None } in
   let fl f = n_of_int (int_of_string f) in
   let cfgf_list = 2 in
